@@ -768,11 +768,13 @@ def judge_file(case, f, rec, single_rc):
     if m:
         return "dropped-%s: %r was declared before and is gone; linter reads %r%s" % (
             sorted(m)[0], m, {"cpr": sorted(got[0]), "lic": sorted(got[1]), "con": sorted(got[2])}, shape(prev))
-    # "precisely": nothing is invented
-    if not merged and not got[0] <= (prev[0] | want[0]):
-        return "invented-copyright: %r is read back but was neither declared nor requested" % (sorted(got[0] - prev[0] - want[0]),)
-    if not got[1] <= (prev[1] | want[1]):
-        return "invented-licence: %r is read back but was neither declared nor requested" % (sorted(got[1] - prev[1] - want[1]),)
+    # "precisely": nothing is invented.  What stood in the file before the run — also beyond the 4096 bytes the linter reads, e.g. an
+    # own header below a very long first line that the new header (now at the top) took over — was declared by the file.
+    stood = (lint_read_bytes(before_bytes, window=False) if before_bytes else None) or (set(), set(), set())
+    if not merged and not got[0] <= (prev[0] | want[0] | stood[0]):
+        return "invented-copyright: %r is read back but was neither declared nor requested" % (sorted(got[0] - prev[0] - want[0] - stood[0]),)
+    if not got[1] <= (prev[1] | want[1] | stood[1]):
+        return "invented-licence: %r is read back but was neither declared nor requested" % (sorted(got[1] - prev[1] - want[1] - stood[1]),)
     return None
 
 
